@@ -43,6 +43,17 @@ class V:
     def __init__(self, kind='null', val=None, own=None):
         self.kind, self.val, self.own = kind, val, own
         self.block, self.length = None, 0
+        self.home = None          # (block, slot index) when the node lives in a children block / node stack
+        self.ofs = None           # the parent index a SAX handler keeps in the payload of a container under construction
+
+    def __add__(self, k):
+        if self.home is None:
+            raise UndefinedBehaviour('pointer arithmetic on a node that is not part of a block')
+        return Ptr(self.home[0], self.home[1] + k, 1)
+
+    def construct(self, init):
+        if isinstance(init, V):
+            self.copy_bits(init)
 
     def copy_bits(self, o):
         self.kind, self.val, self.own, self.block, self.length = o.kind, o.val, o.own, o.block, o.length
@@ -54,12 +65,23 @@ class V:
             return ('strbuf', self.own) if self.own is not None else ('const', self.val)
         if name == 'children':
             return self.block if self.block is not None else 0
+        if name == 'ofs':
+            if self.ofs is None:
+                raise UndefinedBehaviour('the parent index of a node that is not a container under construction is read')
+            return self.ofs
         raise Unsupported('node field %s' % name)
 
     def set_member(self, name, v):
         if name == 'children':
             self.block = None if (isinstance(v, int) and v == 0) else v
             return
+        if name == 'ofs':
+            self.ofs = v
+            return
+        if name == 'p':
+            if isinstance(v, tuple) and v and v[0] == 'chars':
+                self.val, self.own = v[1][:self.length] if self.kind in ('str', 'raw') else v[1], None
+                return
         raise Unsupported('store to node field %s' % name)
 
     def __repr__(self):
@@ -73,6 +95,8 @@ class Block:
     def __init__(self, ledger, cap, unit):
         self.cap, self.unit = cap, unit
         self.slots = [V('uninit') for _ in range(cap * unit)]
+        for j_, v_ in enumerate(self.slots):
+            v_.home = (self, j_)
         self.map = None
         self.rid = ledger.alloc('children block')
         self.freed = False
@@ -272,11 +296,7 @@ class Machine:
             raise AnalysisBroken('DNode::%s not found among the instantiated functions' % name)
         return self.run(f, this, list(args))
 
-    def run(self, f, this, args):
-        self.depth += 1
-        if self.depth > 12:
-            raise Unsupported('call depth')
-        it = None
+    def generic_hook(self, e, args, env, members, it, o_unused=None):
         M = self
 
         def tv(x):
@@ -287,284 +307,298 @@ class Machine:
                 raise Unsupported('member used as a node')
             return x
 
-        def hook(e, args, env, members):
-            name = e.get('cname') or ''
-            if name.startswith('__builtin_'):
-                return None
-            o = None
-            if e.get('obj') is not None:
-                o = it.ev(e['obj'], env, members)
-            elif e.get('k') == 'call' and e.get('ccls') and 'DNode' in (e.get('ccls') or '') and not e.get('cstatic') and '__this__' in env and not e.get('opcall'):
-                o = env['__this__']
-            # ---- map model
-            if isinstance(o, MMap):
-                m = o
-                if m.destroyed:
-                    raise UndefinedBehaviour('a destroyed lookup map is used')
-                if name == 'find':
-                    k = skey(args[0])
-                    i = m.lower(k)
-                    return MapIt(m, i if i < len(m.entries) and m.entries[i][0] == k else len(m.entries))
-                if name == 'end':
-                    return MapIt(m, len(m.entries))
-                if name == 'erase':
-                    a = args[0]
-                    if isinstance(a, MapIt):
-                        if not 0 <= a.pos < len(m.entries):
-                            raise UndefinedBehaviour('erase(end())')
-                        del m.entries[a.pos]
-                        return MapIt(m, a.pos)
-                    k = skey(a)
-                    n0 = len(m.entries)
-                    m.entries = [x for x in m.entries if x[0] != k]
-                    return n0 - len(m.entries)
-                if name in ('emplace', 'insert'):
-                    k, idx = args[0]
-                    k = skey(k)
-                    m.entries.insert(m.upper(k), [k, idx])
-                    return 0
-                if name == 'equal_range':
-                    k = skey(args[0])
-                    return {'first': MapIt(m, m.lower(k)), 'second': MapIt(m, m.upper(k))}
-                if name.startswith('~'):
-                    m.destroyed = True
-                    return 0
-                if name in ('size',):
-                    return len(m.entries)
-                raise Unsupported('map method %s' % name)
-            if e.get('opcall') and args and isinstance(args[0], MapIt):
-                a0 = args[0]
-                if name in ('operator==', 'operator!=') and len(args) == 2:
-                    return int((a0 == args[1]) == (name == 'operator=='))
-                if name == 'operator++':
-                    if len(args) == 2:        # postfix: returns the old position
-                        old_ = MapIt(a0.m, a0.pos)
-                        a0.pos += 1
-                        return old_
-                    a0.pos += 1
-                    return a0
-                if name in ('operator->', 'operator*'):
-                    return a0
-                raise Unsupported('map iterator %s' % name)
-            if name == 'make_pair' and len(args) == 2:
-                return (args[0], args[1])
-            if name in ('move', 'forward') and len(args) == 1:
-                return args[0]
-            if name in ('move', 'copy') and len(args) == 3 and all(isinstance(a, Ptr) for a in args):
-                # std::move / std::copy over node ranges: element-wise assignment (which releases what the target holds)
-                first, last, dst = args
-                k_ = 0
-                while not (first + k_ == last):
-                    if k_ > 64:
-                        raise UndefinedBehaviour('std::%s over an unbounded range' % name)
-                    tgt, src = (dst + k_).slot(), (first + k_).slot()
-                    if tgt is not src:
-                        M.call('destroy', tgt)
-                        tgt.copy_bits(src)
-                        if name == 'move':
-                            src.kind, src.val, src.own, src.block, src.length = 'null', None, None, None, 0
-                    k_ += 1
-                return dst + k_
-            # ---- string views
-            if isinstance(o, tuple) and o and o[0] == 'sv':
-                if name == 'data':
-                    return ('chars', o[1])
-                if name in ('size', 'length'):
-                    return len(o[1])
-                raise Unsupported('string view method %s' % name)
-            if name in ('operator==', 'operator!=') and len(args) == 2 and all(isinstance(a, tuple) and a and a[0] == 'sv' for a in args):
-                return int((args[0][1] == args[1][1]) == (name == 'operator=='))
-            if e.get('k') == 'ctor' and (e.get('cname') or '') in ('basic_string_view', 'StringView') and len(args) == 2 and isinstance(args[0], tuple) and args[0][0] == 'chars':
-                return ('sv', args[0][1][:args[1]])
-            # ---- allocator
-            if name == 'Free' and len(args) == 1:
-                a = args[0]
-                if isinstance(a, int) and a == 0:
-                    return 0
-                if not M.need_free:
-                    return 0
-                if isinstance(a, Block):
-                    if a.map is not None and a.map is not UNINIT and not a.map.destroyed and False:
-                        pass
-                    M.ledger.free(a.rid, 'children block')
-                    a.freed = True
-                    return 0
-                if isinstance(a, MMap):
-                    M.ledger.free(a.rid, 'lookup map')
-                    return 0
-                if isinstance(a, tuple) and a[0] == 'strbuf':
-                    M.ledger.free(a[1], 'copied string')
-                    return 0
-                if isinstance(a, tuple) and a[0] == 'const':
-                    raise UndefinedBehaviour('Free() of a string that is not owned')
-                raise Unsupported('Free(%r)' % (a,))
-            if name == 'Malloc' and len(args) == 1:
-                return MMap(M.ledger)       # the only raw allocation in the interpreted functions is the lookup map
-            if e.get('k') == 'new':
-                return None
-            if e.get('k') == 'autodtor':
-                if isinstance(args[0], V):
-                    M.call('destroy', args[0])
-                return 0
-            if e.get('k') == 'ctor' and (e.get('cname') or '') in ('DNode', 'GenericNode') and not args:
-                return V('null')
-            if e.get('opcall') and o is None and args and isinstance(args[0], (V, Ptr)):
-                o = args[0]
-            # ---- nodes
-            if isinstance(o, (V, Ptr)):
-                n = tv(o)
-                if name == 'Size':
-                    if n.kind == 'uninit':
-                        raise UndefinedBehaviour('Size() of an uninitialised slot')
-                    return n.length if n.kind in ('obj', 'arr') else (len(n.val) if n.kind in ('str', 'raw') else 0)
-                if name == 'Capacity':
-                    return n.block.cap if n.block is not None else 0
-                if name in ('IsObject', 'IsArray', 'IsContainer', 'IsString'):
-                    return int({'IsObject': n.kind == 'obj', 'IsArray': n.kind == 'arr', 'IsContainer': n.kind in ('obj', 'arr'), 'IsString': n.kind == 'str'}[name])
-                if name == 'GetType':
-                    return M.sub(n)
-                if name == 'getBasicType':
-                    return M.sub(n) & 7
-                if name == 'children':
-                    return n.block if n.block is not None else 0
-                if name == 'meta':
-                    return n.block if n.block is not None else 0
-                if name == 'setChildren':
-                    a = args[0]
-                    n.block = None if (isinstance(a, int) and a == 0) else a
-                    if n.block is not None and not isinstance(n.block, Block):
-                        raise Unsupported('setChildren(%r)' % (a,))
-                    return 0
-                if name == 'setCapacity':
-                    n.block.cap = args[0]
-                    return 0
-                if name in ('addLength', 'subLength'):
-                    n.length += args[0] if name == 'addLength' else -args[0]
-                    if n.length < 0:
-                        raise UndefinedBehaviour('length below zero')
-                    return 0
-                if name == 'setLength':
-                    if len(args) == 2:
-                        M.settype(n, args[1])
-                    if n.kind in ('obj', 'arr'):
-                        n.length = args[0]
-                    return 0
-                if name == 'setType':
-                    M.settype(n, args[0])
-                    return 0
-                if name in ('getObjChildrenFirst', 'getObjChildrenFirstUnsafe', 'getArrChildrenFirst', 'getArrChildrenFirstUnsafe'):
-                    if n.block is None:
-                        if name.endswith('Unsafe'):
-                            raise UndefinedBehaviour('%s() without a children block' % name)
-                        return 0
-                    return Ptr(n.block, 0, 1)
-                if name in ('memberBeginUnsafe', 'memberEndUnsafe', 'MemberBegin', 'MemberEnd', 'CMemberBegin', 'CMemberEnd', 'memberBeginImpl', 'memberEndImpl', 'cmemberBeginImpl', 'cmemberEndImpl'):
-                    if n.block is None:
-                        if 'Unsafe' in name:
-                            raise UndefinedBehaviour('%s() without a children block' % name)
-                        return Ptr(None, 0, 2)
-                    return Ptr(n.block, 2 * n.length if 'End' in name else 0, 2)
-                if name in ('Begin', 'End', 'CBegin', 'CEnd', 'beginImpl', 'endImpl', 'cbeginImpl', 'cendImpl'):
-                    if n.block is None:
-                        return Ptr(None, 0, 1)
-                    return Ptr(n.block, n.length if 'nd' in name[-4:] or name in ('End', 'CEnd') else 0, 1)
-                if name in ('getMap', 'getMapUnsfe'):
-                    if n.block is None:
-                        if name == 'getMapUnsfe':
-                            raise UndefinedBehaviour('getMapUnsfe() without a children block')
-                        return 0
-                    if n.block.map is UNINIT:
-                        raise UndefinedBehaviour('the map word of a children block is read before it was initialised')
-                    return n.block.map if n.block.map is not None else 0
-                if name == 'setMap':
-                    if n.block is None:
-                        raise UndefinedBehaviour('setMap() without a children block')
-                    a = args[0]
-                    n.block.map = None if (isinstance(a, int) and a == 0) else a
-                    return 0
-                if name in ('containerMalloc', 'containerRealloc'):
-                    unit = 2 if 'Member' in (e.get('cdiag') or '') else 1
-                    if name == 'containerMalloc':
-                        return Block(M.ledger, args[0], unit)
-                    old, old_cap, new_cap = args[0], args[1], args[2]
-                    nb = Block(M.ledger, new_cap, unit)
-                    if isinstance(old, Block):
-                        if old.cap != old_cap:
-                            raise UndefinedBehaviour('containerRealloc with old capacity %d for a block of capacity %d' % (old_cap, old.cap))
-                        k = min(len(old.slots), len(nb.slots))
-                        nb.slots[:k] = old.slots[:k]
-                        nb.map = old.map
-                        M.ledger.free(old.rid, 'children block')
-                        old.freed = True
-                    else:
-                        nb.map = UNINIT
-                    return nb
-                if name == 'rawAssign':
-                    src = tv(args[0])
-                    n.copy_bits(src)
-                    src.kind, src.val, src.own, src.block, src.length = 'null', None, None, None, 0
-                    return 0
-                if name == 'GetStringView':
-                    if n.kind != 'str':
-                        raise UndefinedBehaviour('GetStringView() of a %s slot' % n.kind)
-                    return ('sv', n.val)
-                if name == 'SetString':
-                    M.call('destroy', n)
-                    sv_ = args[0]
-                    n.kind, n.val, n.block, n.length = 'str', skey(sv_), None, 0
-                    n.own = M.ledger.alloc('copied string %r' % n.val) if len(args) >= 2 else None
-                    return n
-                if name in ('SetNull', 'setNullImpl'):
-                    M.call('destroy', n)
-                    n.kind, n.val, n.own, n.block, n.length = 'null', None, None, None, 0
-                    return n
-                if name.startswith('~') and 'Node' in name and 'Meta' not in name:
-                    M.call('destroy', n)      # the destructor releases what the node owns; the bits stay
-                    return 0
-                if name == 'operator=' :
-                    src = tv(args[-1])
-                    if src is n:
-                        return n
-                    M.call('destroy', n)
-                    n.copy_bits(src)
-                    src.kind, src.val, src.own, src.block, src.length = 'null', None, None, None, 0
-                    return n
-                if name in M.fns and name not in ('Size',):
-                    r_ = M.run(M.fns[name], n, args)
-                    return 0 if r_ is None else r_
-                raise Unsupported('node method %s' % name)
-            if isinstance(o, Block):
-                if name.startswith('~'):       # ~MetaNode(): releases the map
-                    if o.map is UNINIT:
-                        raise UndefinedBehaviour('the map word of a children block is read before it was initialised')
-                    if o.map is not None:
-                        if M.need_free:
-                            M.ledger.free(o.map.rid, 'lookup map')
-                        o.map.destroyed = True
-                    return 0
-                if name == 'SetMetaCap':
-                    o.cap = args[0]
-                    return 0
-            if name in ('memmove', 'memcpy') and len(args) == 3:
-                dst, src, nbytes = args
-                if nbytes == 0:
-                    return dst
-                dst = dst.p if isinstance(dst, MemberRef) else dst
-                src = src.p if isinstance(src, MemberRef) else src
-                if not (isinstance(dst, Ptr) and isinstance(src, Ptr)) or nbytes % 16:
-                    raise Unsupported('%s(%r, %r, %r)' % (name, dst, src, nbytes))
-                cnt = nbytes // 16
-                vals = []
-                for j in range(cnt):
-                    s_ = src.slot(j)
-                    c = V()
-                    c.copy_bits(s_)
-                    vals.append(c)
-                for j in range(cnt):
-                    dst.slot(j).copy_bits(vals[j])
-                return dst
+        name = e.get('cname') or ''
+        if name.startswith('__builtin_'):
             return None
+        o = None
+        if e.get('obj') is not None:
+            try:
+                o = it.ev(e['obj'], env, members)
+            except Unsupported:
+                o = None            # e.g. a call on the handler object itself: left to the interpreter
+        elif e.get('k') == 'call' and e.get('ccls') and 'DNode' in (e.get('ccls') or '') and not e.get('cstatic') and '__this__' in env and not e.get('opcall'):
+            o = env['__this__']
+        # ---- map model
+        if isinstance(o, MMap):
+            m = o
+            if m.destroyed:
+                raise UndefinedBehaviour('a destroyed lookup map is used')
+            if name == 'find':
+                k = skey(args[0])
+                i = m.lower(k)
+                return MapIt(m, i if i < len(m.entries) and m.entries[i][0] == k else len(m.entries))
+            if name == 'end':
+                return MapIt(m, len(m.entries))
+            if name == 'erase':
+                a = args[0]
+                if isinstance(a, MapIt):
+                    if not 0 <= a.pos < len(m.entries):
+                        raise UndefinedBehaviour('erase(end())')
+                    del m.entries[a.pos]
+                    return MapIt(m, a.pos)
+                k = skey(a)
+                n0 = len(m.entries)
+                m.entries = [x for x in m.entries if x[0] != k]
+                return n0 - len(m.entries)
+            if name in ('emplace', 'insert'):
+                k, idx = args[0]
+                k = skey(k)
+                m.entries.insert(m.upper(k), [k, idx])
+                return 0
+            if name == 'equal_range':
+                k = skey(args[0])
+                return {'first': MapIt(m, m.lower(k)), 'second': MapIt(m, m.upper(k))}
+            if name.startswith('~'):
+                m.destroyed = True
+                return 0
+            if name in ('size',):
+                return len(m.entries)
+            raise Unsupported('map method %s' % name)
+        if e.get('opcall') and args and isinstance(args[0], MapIt):
+            a0 = args[0]
+            if name in ('operator==', 'operator!=') and len(args) == 2:
+                return int((a0 == args[1]) == (name == 'operator=='))
+            if name == 'operator++':
+                if len(args) == 2:        # postfix: returns the old position
+                    old_ = MapIt(a0.m, a0.pos)
+                    a0.pos += 1
+                    return old_
+                a0.pos += 1
+                return a0
+            if name in ('operator->', 'operator*'):
+                return a0
+            raise Unsupported('map iterator %s' % name)
+        if name == 'make_pair' and len(args) == 2:
+            return (args[0], args[1])
+        if name in ('move', 'forward') and len(args) == 1:
+            return args[0]
+        if name in ('move', 'copy') and len(args) == 3 and all(isinstance(a, Ptr) for a in args):
+            # std::move / std::copy over node ranges: element-wise assignment (which releases what the target holds)
+            first, last, dst = args
+            k_ = 0
+            while not (first + k_ == last):
+                if k_ > 64:
+                    raise UndefinedBehaviour('std::%s over an unbounded range' % name)
+                tgt, src = (dst + k_).slot(), (first + k_).slot()
+                if tgt is not src:
+                    M.call('destroy', tgt)
+                    tgt.copy_bits(src)
+                    if name == 'move':
+                        src.kind, src.val, src.own, src.block, src.length = 'null', None, None, None, 0
+                k_ += 1
+            return dst + k_
+        # ---- string views
+        if isinstance(o, tuple) and o and o[0] == 'sv':
+            if name == 'data':
+                return ('chars', o[1])
+            if name in ('size', 'length'):
+                return len(o[1])
+            raise Unsupported('string view method %s' % name)
+        if name in ('operator==', 'operator!=') and len(args) == 2 and all(isinstance(a, tuple) and a and a[0] == 'sv' for a in args):
+            return int((args[0][1] == args[1][1]) == (name == 'operator=='))
+        if e.get('k') == 'ctor' and (e.get('cname') or '') in ('basic_string_view', 'StringView') and len(args) == 2 and isinstance(args[0], tuple) and args[0][0] == 'chars':
+            return ('sv', args[0][1][:args[1]])
+        # ---- allocator
+        if name == 'Free' and len(args) == 1:
+            a = args[0]
+            if isinstance(a, int) and a == 0:
+                return 0
+            if not M.need_free:
+                return 0
+            if isinstance(a, Block):
+                if a.map is not None and a.map is not UNINIT and not a.map.destroyed and False:
+                    pass
+                M.ledger.free(a.rid, 'children block')
+                a.freed = True
+                return 0
+            if isinstance(a, MMap):
+                M.ledger.free(a.rid, 'lookup map')
+                return 0
+            if isinstance(a, tuple) and a[0] == 'strbuf':
+                M.ledger.free(a[1], 'copied string')
+                return 0
+            if isinstance(a, tuple) and a[0] == 'const':
+                raise UndefinedBehaviour('Free() of a string that is not owned')
+            raise Unsupported('Free(%r)' % (a,))
+        if name == 'Malloc' and len(args) == 1:
+            return MMap(M.ledger)       # the only raw allocation in the interpreted functions is the lookup map
+        if e.get('k') == 'new':
+            return None
+        if e.get('k') == 'autodtor':
+            if isinstance(args[0], V):
+                M.call('destroy', args[0])
+            return 0
+        if e.get('k') == 'ctor' and (e.get('cname') or '') in ('DNode', 'GenericNode') and not args:
+            return V('null')
+        if e.get('opcall') and o is None and args and isinstance(args[0], (V, Ptr)):
+            o = args[0]
+        # ---- nodes
+        if isinstance(o, (V, Ptr)):
+            n = tv(o)
+            if name == 'Size':
+                if n.kind == 'uninit':
+                    raise UndefinedBehaviour('Size() of an uninitialised slot')
+                return n.length if n.kind in ('obj', 'arr') else (len(n.val) if n.kind in ('str', 'raw') else 0)
+            if name == 'Capacity':
+                return n.block.cap if n.block is not None else 0
+            if name in ('IsObject', 'IsArray', 'IsContainer', 'IsString'):
+                return int({'IsObject': n.kind == 'obj', 'IsArray': n.kind == 'arr', 'IsContainer': n.kind in ('obj', 'arr'), 'IsString': n.kind == 'str'}[name])
+            if name == 'GetType':
+                return M.sub(n)
+            if name == 'getBasicType':
+                return M.sub(n) & 7
+            if name == 'children':
+                return n.block if n.block is not None else 0
+            if name == 'meta':
+                return n.block if n.block is not None else 0
+            if name == 'setChildren':
+                a = args[0]
+                n.block = None if (isinstance(a, int) and a == 0) else a
+                if n.block is not None and not isinstance(n.block, Block):
+                    raise Unsupported('setChildren(%r)' % (a,))
+                return 0
+            if name == 'setCapacity':
+                n.block.cap = args[0]
+                return 0
+            if name in ('addLength', 'subLength'):
+                n.length += args[0] if name == 'addLength' else -args[0]
+                if n.length < 0:
+                    raise UndefinedBehaviour('length below zero')
+                return 0
+            if name == 'setLength':
+                if len(args) == 2:
+                    M.settype(n, args[1])
+                if n.kind in ('obj', 'arr', 'str', 'raw'):
+                    n.length = args[0]
+                if n.kind in ('obj', 'arr') and len(args) == 2:
+                    n.block = None
+                return 0
+            if name == 'setType':
+                M.settype(n, args[0])
+                return 0
+            if name in ('getObjChildrenFirst', 'getObjChildrenFirstUnsafe', 'getArrChildrenFirst', 'getArrChildrenFirstUnsafe'):
+                if n.block is None:
+                    if name.endswith('Unsafe'):
+                        raise UndefinedBehaviour('%s() without a children block' % name)
+                    return 0
+                return Ptr(n.block, 0, 1)
+            if name in ('memberBeginUnsafe', 'memberEndUnsafe', 'MemberBegin', 'MemberEnd', 'CMemberBegin', 'CMemberEnd', 'memberBeginImpl', 'memberEndImpl', 'cmemberBeginImpl', 'cmemberEndImpl'):
+                if n.block is None:
+                    if 'Unsafe' in name:
+                        raise UndefinedBehaviour('%s() without a children block' % name)
+                    return Ptr(None, 0, 2)
+                return Ptr(n.block, 2 * n.length if 'End' in name else 0, 2)
+            if name in ('Begin', 'End', 'CBegin', 'CEnd', 'beginImpl', 'endImpl', 'cbeginImpl', 'cendImpl'):
+                if n.block is None:
+                    return Ptr(None, 0, 1)
+                return Ptr(n.block, n.length if 'nd' in name[-4:] or name in ('End', 'CEnd') else 0, 1)
+            if name in ('getMap', 'getMapUnsfe'):
+                if n.block is None:
+                    if name == 'getMapUnsfe':
+                        raise UndefinedBehaviour('getMapUnsfe() without a children block')
+                    return 0
+                if n.block.map is UNINIT:
+                    raise UndefinedBehaviour('the map word of a children block is read before it was initialised')
+                return n.block.map if n.block.map is not None else 0
+            if name == 'setMap':
+                if n.block is None:
+                    raise UndefinedBehaviour('setMap() without a children block')
+                a = args[0]
+                n.block.map = None if (isinstance(a, int) and a == 0) else a
+                return 0
+            if name in ('containerMalloc', 'containerRealloc'):
+                unit = 2 if 'Member' in (e.get('cdiag') or '') else 1
+                if name == 'containerMalloc':
+                    return Block(M.ledger, args[0], unit)
+                old, old_cap, new_cap = args[0], args[1], args[2]
+                nb = Block(M.ledger, new_cap, unit)
+                if isinstance(old, Block):
+                    if old.cap != old_cap:
+                        raise UndefinedBehaviour('containerRealloc with old capacity %d for a block of capacity %d' % (old_cap, old.cap))
+                    k = min(len(old.slots), len(nb.slots))
+                    nb.slots[:k] = old.slots[:k]
+                    nb.map = old.map
+                    M.ledger.free(old.rid, 'children block')
+                    old.freed = True
+                else:
+                    nb.map = UNINIT
+                return nb
+            if name == 'rawAssign':
+                src = tv(args[0])
+                n.copy_bits(src)
+                src.kind, src.val, src.own, src.block, src.length = 'null', None, None, None, 0
+                return 0
+            if name == 'GetStringView':
+                if n.kind != 'str':
+                    raise UndefinedBehaviour('GetStringView() of a %s slot' % n.kind)
+                return ('sv', n.val)
+            if name == 'SetString':
+                M.call('destroy', n)
+                sv_ = args[0]
+                n.kind, n.val, n.block, n.length = 'str', skey(sv_), None, 0
+                n.own = M.ledger.alloc('copied string %r' % n.val) if len(args) >= 2 else None
+                return n
+            if name in ('SetNull', 'setNullImpl'):
+                M.call('destroy', n)
+                n.kind, n.val, n.own, n.block, n.length = 'null', None, None, None, 0
+                return n
+            if name.startswith('~') and 'Node' in name and 'Meta' not in name:
+                M.call('destroy', n)      # the destructor releases what the node owns; the bits stay
+                return 0
+            if name == 'operator=' :
+                src = tv(args[-1])
+                if src is n:
+                    return n
+                M.call('destroy', n)
+                n.copy_bits(src)
+                src.kind, src.val, src.own, src.block, src.length = 'null', None, None, None, 0
+                return n
+            if name in M.fns and name not in ('Size',):
+                r_ = M.run(M.fns[name], n, args)
+                return 0 if r_ is None else r_
+            raise Unsupported('node method %s' % name)
+        if isinstance(o, Block):
+            if name.startswith('~'):       # ~MetaNode(): releases the map
+                if o.map is UNINIT:
+                    raise UndefinedBehaviour('the map word of a children block is read before it was initialised')
+                if o.map is not None:
+                    if M.need_free:
+                        M.ledger.free(o.map.rid, 'lookup map')
+                    o.map.destroyed = True
+                return 0
+            if name == 'SetMetaCap':
+                o.cap = args[0]
+                return 0
+        if name in ('memmove', 'memcpy') and len(args) == 3:
+            dst, src, nbytes = args
+            if nbytes == 0:
+                return dst
+            dst = dst.p if isinstance(dst, MemberRef) else dst
+            src = src.p if isinstance(src, MemberRef) else src
+            if not (isinstance(dst, Ptr) and isinstance(src, Ptr)) or nbytes % 16:
+                raise Unsupported('%s(%r, %r, %r)' % (name, dst, src, nbytes))
+            cnt = nbytes // 16
+            vals = []
+            for j in range(cnt):
+                s_ = src.slot(j)
+                c = V()
+                c.copy_bits(s_)
+                vals.append(c)
+            for j in range(cnt):
+                dst.slot(j).copy_bits(vals[j])
+            return dst
+        return None
+
+    def run(self, f, this, args):
+        self.depth += 1
+        if self.depth > 12:
+            raise Unsupported('call depth')
+        holder = []
+
+        def hook(e, args, env, members):
+            return self.generic_hook(e, args, env, members, holder[0])
         it = Interp(f, self.facts, call_hook=hook, max_steps=100000)
+        holder.append(it)
         env = {'__this__': this}
         for p, a in zip(f.params, args):
             env[p['id']] = a
